@@ -6,7 +6,7 @@ from .. import cv, gen, lib, ref
 from ..lib import call
 
 PROP = "C13"
-PLAN = {"quick": (1400, 400), "thorough": (40000, 3600)}
+PLAN = {"quick": (1400, 400), "thorough": (12000, 3600)}
 LARGE = (0.03, 20)  # (share, largest size) of the large class of gen.kv: 17+ control points, degree up to 8
 STEP_BUDGET = 20_000_000  # loop line events per outermost call: ten times the default, for the large class
 RULE = ("case = (A, relation, order); B is built from A by the reference model: identical copy, knots inserted, degree "
